@@ -229,6 +229,33 @@ func genC14(e *emitter, tier string, seed uint64) {
 						}
 						ins(m, "mutant-part-replaced")
 					}
+					// the same push with shorter / longer data (every shorter length up to 6, then sampled)
+					p := parts[pi]
+					if len(p) >= 2 {
+						for k := 1; k <= len(p); k++ {
+							if k > 6 && k < len(p)-1 && !r.chance(10) {
+								continue
+							}
+							data := append([]byte{}, p[:k%len(p)+0]...)
+							if k == len(p) {
+								data = append(append([]byte{}, p...), byte(r.n(256)))
+							} else {
+								data = append([]byte{}, p[:k]...)
+							}
+							var m []byte
+							for pj, pp := range parts {
+								switch {
+								case pj == pi:
+									m = append(m, pushOf(data)...)
+								case len(pp) == 1 && (pp[0] == 0 || pp[0] > 0x4e):
+									m = append(m, pp[0])
+								default:
+									m = append(m, pushOf(pp)...)
+								}
+							}
+							ins(m, "mutant-part-resized")
+						}
+					}
 				}
 			}
 		}
